@@ -254,6 +254,7 @@ func TestVerifCtl(t *testing.T) {
 			wdEpisode.Store("")
 			if sw != nil && len(s.Panics) == 0 {
 				res.SliceBlocks = writeSlices(sw, s, fmt.Sprintf("%s:%d:%s", f.name, seed, strategy))
+				sw.Flush() // a later episode may end in a watchdog exit: its predecessors' blocks must not be lost with the buffer
 			}
 			enc.Encode(res)
 			w.Flush()
